@@ -26,6 +26,12 @@ type Draw struct {
 	Ts   []*Term `json:"-"`
 	V    uint64  `json:"v"`
 	Vs   []uint64 `json:"vs,omitempty"`
+	Stub bool    `json:"s,omitempty"`
+}
+
+func (in *Interp) addDraw(d Draw) {
+	d.Stub = in.inStub > 0
+	in.draws = append(in.draws, d)
 }
 
 type deferred struct {
@@ -75,6 +81,7 @@ type Interp struct {
 	pools    map[*Value][]Value
 	atomicVals map[*Value]Value
 	clock    int64
+	inStub   int
 	panicStack []string
 	goCount  int
 	observes []string
@@ -106,6 +113,7 @@ func (in *Interp) resetPath(prefix []Decision) {
 	in.pools = map[*Value][]Value{}
 	in.atomicVals = map[*Value]Value{}
 	in.clock = 0
+	in.inStub = 0
 	in.panicStack = nil
 	in.goCount = 0
 	in.observes = in.observes[:0]
@@ -471,6 +479,8 @@ func (in *Interp) callSSA(caller *frame, site ssa.Instruction, fn *ssa.Function,
 		if len(in.replace) > 0 {
 			if r, ok := in.replace[name]; ok {
 				if rf, _ := r.(*ssa.Function); rf != fn {
+					in.inStub++
+					defer func() { in.inStub-- }()
 					return in.call(caller, site, r, args)
 				}
 			}
